@@ -22,8 +22,7 @@ cv_i1 ap_aw_cas(ATOMAW *a, AWT **expected, AWT *desired, cv_i32 so, cv_i32 fo) {
 #ifdef DRIVE_main
 void h_drive(void) {
   int nlist = nondet_unsigned(), v1 = nondet_unsigned(), v2 = nondet_unsigned(), by_ref = nondet_bool(), late = nondet_bool(), lim = nondet_unsigned();
-  __CPROVER_assume(lim >= 1 && lim <= 3);
-  nlist = DRIVE_NLIST; late = DRIVE_LATE;            /* concrete shapes (one unit per shape): the suspend-point merge is too expensive for symbolic list lengths */
+  nlist = DRIVE_NLIST; late = DRIVE_LATE; lim = DRIVE_LIM;            /* concrete shapes (one unit per shape): the suspend-point merge is too expensive for symbolic list lengths */
   *G_CB_LIMIT = lim;
   unsigned a0 = gh_allocs, f0 = gh_frees;
   c15_drive(nlist, v1, v2, by_ref, late);
